@@ -246,6 +246,16 @@ func (g *gateSet) ForEach(cb func(E) error) error {
 	})
 }
 
+// ToSlice (how Replace reads its argument): the gate closes after the argument has been read, before the caller goes on.
+func (g *gateSet) ToSlice() []E {
+	sl := g.Set.ToSlice()
+	if g.after < 0 {
+		g.once.Do(g.gate)
+	}
+
+	return sl
+}
+
 func (g *gateSet) Range(cb func(E)) {
 	i := 0
 	g.Set.Range(func(e E) {
@@ -273,7 +283,8 @@ func readerPending() bool {
 // inside is the directed schedule "two single-element calls of one goroutine INSIDE a bulk operation that is halfway
 // through": goroutine A runs Apply with a gateSet as added (applyadd) or deleted (applydel) elements - the gate closes
 // after the first element was written - or Compute with a factory that reads the set and then stops at the gate
-// (compute); at the gate goroutine B is released and calls, one after the other, two of Add/Delete on the elements the
+// (compute), or Replace whose argument stops at the gate after it has been read (replace: previous and new elements are
+// read, nothing is cleared yet); at the gate goroutine B is released and calls, one after the other, two of Add/Delete on the elements the
 // bulk operation is about (pair: del = Delete,Delete; add = Add,Add; mix = one of each).  A continues when B has
 // returned from both calls or is seen blocked in applyMutex.RLock (the unchanged code: B waits for the whole bulk
 // operation).  The elements are chosen so that the first call can only be explained AFTER the bulk operation and the second
@@ -311,6 +322,18 @@ func (w *world) inside(bulk, pair string) string {
 	case "compute/del":
 		init, adds, dels = []E{2, 3}, []E{4}, []E{1, 2}
 		b1, b2 = [2]interface{}{"del", E(2)}, [2]interface{}{"del", E(4)}
+	// replace: Replace({2,4}) on {1,2,3}; the window is after Replace has read the previous and the new elements, before its
+	// Clear.  Delete(1) = true there is reported a second time by Replace (removed 1); Add(5) = true there is wiped out
+	// without being reported; afterwards (the unchanged code) Delete(1) = false, Add(5) = true and 5 stays.
+	case "replace/del":
+		init, adds = []E{1, 2, 3}, []E{2, 4}
+		b1, b2 = [2]interface{}{"del", E(1)}, [2]interface{}{"del", E(3)}
+	case "replace/add":
+		init, adds = []E{1, 2, 3}, []E{2, 4}
+		b1, b2 = [2]interface{}{"add", E(5)}, [2]interface{}{"add", E(0)}
+	case "replace/mix":
+		init, adds = []E{1, 2, 3}, []E{2, 4}
+		b1, b2 = [2]interface{}{"add", E(5)}, [2]interface{}{"del", E(1)}
 	default:
 		return "bad-op"
 	}
@@ -353,6 +376,11 @@ func (w *world) inside(bulk, pair string) string {
 			m = s.Apply(ds.NewSetMutations[E]().WithAddedElements(&gateSet{Set: ds.NewSet(adds...), gate: gate}).WithDeletedElements(ds.NewSet(dels...)))
 		case "applydel":
 			m = s.Apply(ds.NewSetMutations[E]().WithAddedElements(ds.NewSet(adds...)).WithDeletedElements(&gateSet{Set: ds.NewSet(dels...), gate: gate}))
+		case "replace":
+			rm := s.Replace(&gateSet{Set: ds.NewSet(adds...), after: -1, gate: gate})
+			calls[0] = hcall{inv, seq.Add(1), fmt.Sprintf("replace;%s;%s", commaList(adds), commaList(rm.ToSlice()))}
+
+			return
 		default:
 			kind = "compute"
 			// the factory's reading of the set, then the window, then its answer
@@ -1244,7 +1272,7 @@ func runConcurrent(r *hx.Run) {
 		ops = append(ops, fmt.Sprintf("overlap del %d", 20000+5000*(i%5)), fmt.Sprintf("overlap add %d", 20000+5000*(i%5)))
 	}
 	for i := 0; i < forcedN; i++ {
-		for _, b := range []string{"applyadd", "applydel", "compute"} {
+		for _, b := range []string{"applyadd", "applydel", "compute", "replace"} {
 			for _, p := range []string{"del", "add", "mix"} {
 				ops = append(ops, fmt.Sprintf("inside %s %s", b, p))
 			}
